@@ -172,6 +172,14 @@ impl World {
         self.clients.insert(name.to_string(), c);
     }
 
+    /// A second device of the user `primary`: same Nostr identity, own storage, own key packages, own leaf.
+    pub fn add_client_sibling(&mut self, name: &str, primary: &str, backend: &str) {
+        let keys = self.clients[primary].keys.clone();
+        self.add_client(name, backend);
+        let c = self.clients.get_mut(name).unwrap();
+        c.keys = keys;
+    }
+
     pub fn user_of(&self, pk: &PublicKey) -> String {
         for (n, c) in &self.clients {
             if c.keys.public_key() == *pk {
